@@ -149,7 +149,7 @@ func RefWeekBody(w RawWeek) []byte {
 	return append(out, le32(w.TimeslotOffset)...)
 }
 func RefWeekSigningBytes(w RawWeek) []byte { return cat([]byte("AllDeviceStats"), RefWeekBody(w)) }
-func RefWeekBytes(w RawWeek) []byte         { return cat(RefWeekBody(w), w.Signature[:]) }
+func RefWeekBytes(w RawWeek) []byte        { return cat(RefWeekBody(w), w.Signature[:]) }
 
 // RefWeekStreamDecode decodes a concatenation of weekly records; rest is the
 // number of trailing bytes that do not form a record.
@@ -190,9 +190,11 @@ func RefWeekStreamDecode(b []byte) (weeks []RawWeek, rest int) {
 
 // RawReply is the structured form of a TCP sync reply (without the two byte
 // length prefix):
-//   device key [32] | window offset u32 | bitfield [504] |
-//   new GCA [32] | new short id u32 | { server entry }* | migration sig [64] |
-//   unix time u64 | server signature [64]
+//
+//	device key [32] | window offset u32 | bitfield [504] |
+//	new GCA [32] | new short id u32 | { server entry }* | migration sig [64] |
+//	unix time u64 | server signature [64]
+//
 // Without a migration order the new GCA, new id and migration signature are
 // zero.
 type RawReply struct {
